@@ -1,7 +1,8 @@
 #!/usr/bin/env python3
 """C09 - each IE field accessor reads and writes exactly its documented bits.
-Oracle: tables/ie_fields.json (layout annotations `Row, sBit, len = [r0, r1], s, n` of all 737 accessor
-        pairs, extracted ONCE at the pinned commit, frozen) rendered as spec/IeFieldTable.tla, and the
+Oracle: tables/ie_fields.json (layout annotations `Row, sBit, len = [r0, r1], s, n` of the 737 annotated accessor
+        pairs + 5 unannotated Iei/Len pairs placed by the TS 24.501 format of their element; extracted ONCE at the
+        pinned commit, frozen) rendered as spec/IeFieldTable.tla, and the
         reference accessors GetField/SetField of spec/IeLayout.tla.  Nothing of it is regenerated here.
 Stage A: MC_C09      every (type, field, prior, value) case of spec/IeCases.tla as a state: round trip,
                      non-interference with every non-overlapping field, Iei/Len kept, no bit outside the
@@ -20,7 +21,7 @@ from vlib import *
 
 META = dict(
     property_id="C09", engine="tlc-ielayout",
-    technique="TLC checks the layout semantics (GetField/SetField over the frozen table of all 737 annotated accessor pairs) exhaustively per field shape; TLC-generated (prior, value) cases and seeded random cases are executed on every real accessor pair by reflection and every observation (getter before, Iei/Len/all octets and getter after) is validated by TLC; all 256 priors x values of every bit field by digest conformance",
+    technique="TLC checks the layout semantics (GetField/SetField over the frozen table of all 742 accessor pairs, 737 of them from the source annotations) exhaustively per field shape; TLC-generated (prior, value) cases and seeded random cases are executed on every real accessor pair by reflection and every observation (getter before, Iei/Len/all octets and getter after) is validated by TLC; all 256 priors x values of every bit field by digest conformance",
     level=("model_checking", "The specification is a table of documented bit positions plus reference accessors; TLC enumerates, for every type and field, the boundary priors (all 0/1, 0x55/0xAA, walking bits, seeded) and values and checks round trip, non-interference and locality, and exhaustively all one-octet field shapes over all contents and values. Each real accessor pair is bound to it case by case: TLC compares the observed element and getter results with SetField/GetField, and for every bit field the full function table (256 priors of its octet x values; all 256 values in thorough) through weighted sums modulo three primes folded independently by the driver and by TLC.", "7/C09"),
     level_note="Trusted: TLC, Go reflection, the frozen annotation table (the `len = INF` fields are octet strings from row r0 whatever their sBit says). Octet-string fields and multi-octet contents are sampled by the stated patterns, not exhaustively. SetLen of Buffer-backed elements (allocator) is judged on Len/Iei only; the DNN text accessor is excluded (C12/C14).",
 )
@@ -73,7 +74,7 @@ def run(c):
         if "overlap" in o:
             c.note("documented fields of %s share bits: %s / %s (exempt from mutual non-interference only)" % tuple(o["overlap"]))
             continue
-        o["groups"].sort(key=lambda g: g["L"])
+        o["groups"].sort(key=lambda g: (g["walk"], g["L"]))       # base groups first
         cases.append(o)
     cases.sort(key=lambda o: (o["ti"], o["fi"]))
     npairs = sum(len(t["fields"]) for t in tab["types"])
@@ -100,7 +101,7 @@ def run(c):
     cp = os.path.join(c.scratch, "cases.json"); json.dump(cases, open(cp, "w"))
     out1 = os.path.join(c.scratch, "replay.ndjson"); out2 = os.path.join(c.scratch, "record.ndjson"); out3 = os.path.join(c.scratch, "digest.ndjson")
     drive(["replay", cp, out1], timeout=1800)
-    nrec = 150000 if thorough else 15000
+    nrec = 100000 if thorough else 15000
     drive(["record", cp, out2, nrec], timeout=1800)
     # digests: every bit field; values = the generator's boundary values (quick) / all (thorough)
     jobs = []
@@ -108,6 +109,7 @@ def run(c):
         f = tab["types"][o["ti"] - 1]["fields"][o["fi"] - 1]
         if f["kind"] != "bits": continue
         g = o["groups"][0]
+        if g["walk"]: raise Infra("generator printed no base group for %s.%s" % (o["type"], o["field"]))
         single = f["r0"] == f["r1"]
         if thorough:
             vals = list(range(f_argmax(f) + 1)) if single else sorted(set(g["values"]) | {c.rng.randrange(65536) for _ in range(8)})
@@ -120,6 +122,9 @@ def run(c):
     drive(["digest", jp, out3], timeout=1800)
     events = read_ndjson(out1) + read_ndjson(out2)
     devents = read_ndjson(out3)
+    # events are independent: deal them round-robin so that every validator shard gets the same mix of element sizes
+    events = [x for k in range(12) for x in events[k::12]]
+    devents = [x for k in range(12) for x in devents[k::12]]
     if len(events) != ncases + nrec:
         raise Infra("driver wrote %d events for %d cases" % (len(events), ncases + nrec))
     c.cov["evaluations"] = calls
@@ -128,6 +133,22 @@ def run(c):
     dmism = c.validate("Trace_C09", devents, shards=12, timeout=3000)
     if any(t[2] == "badevent" for _, t in mism + dmism):
         raise Infra("trace spec could not interpret an event (table/driver plumbing): %r" % ([x for x in mism + dmism if x[1][2] == "badevent"][:3],))
+
+    # binding self-test: corrupted observations in real events must be rejected at exactly those events
+    sl = list(events[:300]); ks = []
+    for k, fld in ((100, "qoct"), (200, "g1")):
+        ce = json.loads(sl[k])
+        if fld == "qoct" and ce["qoct"]: ce["qoct"][-1] ^= 4
+        elif ce["g1"] >= 0: ce["g1"] ^= 1
+        elif ce["gs1"]: ce["gs1"][0] ^= 1
+        else: continue
+        sl[k] = json.dumps(ce); ks.append(k)
+    pre = {i for i, _ in mism if i < 300}
+    bm = c.validate("Trace_C09", sl, shards=1)
+    c.cov["traces_validated_against_impl"] -= len(sl)
+    if {i for i, _ in bm} != pre | set(ks) or not ks:
+        raise Infra("binding self-test failed: corrupted events %r, TLC rejected %r (before: %r)" % (ks, [i for i, _ in bm], sorted(pre)))
+    c.cov["binding_selftest"] = "one bit of the logged contents / getter result of %d real events corrupted: rejected by TLC at exactly those events" % len(ks)
 
     def case_of(e):
         kind = tab["types"][e["ti"] - 1]["fields"][e["fi"] - 1]["kind"]
@@ -238,10 +259,10 @@ def run(c):
     c.cov["recorded_cases"] = nrec
     c.cov["digest_events"] = len(devents)
     c.cov["exhaustive"] = False
-    for i in (0, ncases // 2, ncases + nrec // 2, len(events) - 1):
+    for i in (0, len(events) // 3, len(events) // 2, len(events) - 1):
         c.sample(events[i])
     c.sample(devents[len(devents) // 2])
-    c.assumptions += ["oracle = layout annotations frozen in tables/ie_fields.json at commit %s (%d pairs, %d types); accessors added later are not covered" % (tab["source_commit"][:12], npairs, len(tab["types"])),
+    c.assumptions += ["oracle = layout annotations frozen in tables/ie_fields.json at commit %s (%d pairs, %d types; 5 Iei/Len pairs without annotation are placed by the IE format of TS 24.501); accessors added later are not covered" % (tab["source_commit"][:12], npairs, len(tab["types"])),
                       "`len = INF` fields are octet strings starting at row r0 (their sBit is not meaningful); set = copy into the existing contents",
                       "SetLen of Buffer-backed elements is the allocator: judged on Len, Iei and GetLen only; DNN.GetDNN/SetDNN (text) excluded",
                       "Buffer-backed elements are given contents at least as long as their documented fixed part",
